@@ -112,3 +112,9 @@ Proof.
   - intros H. exists i. split; [exact H| apply Nat.eqb_refl].
 Qed.
 
+
+Lemma In_firstn {A} (x : A) n l : In x (firstn n l) -> In x l.
+Proof.
+  revert l; induction n as [|n IH]; intros l H; simpl in *; [tauto|].
+  destruct l as [|y l]; simpl in *; [tauto|]. destruct H as [H|H]; [now left| right; now apply IH].
+Qed.
